@@ -6,7 +6,7 @@ mkdir -p /verif/findings/c20_triage
 for r in $(seq 1 $rounds); do
   seed=$((1000 + RANDOM))
   rm -f /verif/replays/triage-*
-  VERIF_TRIAGE=1 VERIF_SEED=$seed VERIF_BUDGET=$secs /verif/check C20 thorough > /tmp/c20_sat_$r.log 2>&1
+  VERIF_EXPLORE=1 VERIF_TRIAGE=1 VERIF_SEED=$seed VERIF_BUDGET=$secs /verif/check C20 thorough > /tmp/c20_sat_$r.log 2>&1
   for f in /verif/replays/triage-*.json; do [ -f "$f" ] && cp -n "$f" /verif/findings/c20_triage/$(basename "$f" | sed 's/^triage-//'); done
   echo "round $r seed $seed: $(ls /verif/findings/c20_triage | wc -l) classes so far"
 done
